@@ -7,10 +7,10 @@ from attr import define, evolve
 
 from ... import Config
 from ... import schema as oai
-from ...utils import PythonIdentifier
+from ...utils import ClassName, PythonIdentifier
 from ..errors import ParseError, PropertyError
 from .protocol import PropertyProtocol, Value
-from .schemas import Schemas
+from .schemas import ReferencePath, Schemas
 
 
 @define
@@ -28,7 +28,15 @@ class UnionProperty(PropertyProtocol):
 
     @classmethod
     def build(
-        cls, *, data: oai.Schema, name: str, required: bool, schemas: Schemas, parent_name: str, config: Config
+        cls,
+        *,
+        data: oai.Schema,
+        name: str,
+        required: bool,
+        schemas: Schemas,
+        parent_name: str,
+        config: Config,
+        roots: set[ReferencePath | ClassName] | None = None,
     ) -> tuple[UnionProperty | PropertyError, Schemas]:
         """
         Create a `UnionProperty` the right way.
@@ -40,6 +48,8 @@ class UnionProperty(PropertyProtocol):
             schemas: The `Schemas` so far describing existing classes / references.
             parent_name: The name of the thing which holds this property (used for renaming inner classes).
             config: User-defined config values for modifying inner properties.
+            roots: The set of `ReferencePath`s and `ClassName`s to remove from the schemas if a child reference becomes
+                invalid
 
         Returns:
             `(result, schemas)` where `schemas` is the updated version of the input `schemas` and `result` is the
@@ -62,6 +72,7 @@ class UnionProperty(PropertyProtocol):
                 schemas=schemas,
                 parent_name=parent_name,
                 config=config,
+                roots=roots,
             )
             if isinstance(sub_prop, PropertyError):
                 return PropertyError(detail=f"Invalid property in union {name}", data=sub_prop_data), schemas
